@@ -128,6 +128,12 @@ CHECKS = {
         text="Every single directory (and sampled pairs) is made unlistable and searched as uid 65534; every getdents64 / openat(O_DIRECTORY) call and the readlink / statx / newfstatat / openat(file) / read calls of a traced fault-free run fail once with several errnos; every write(2) index to stdout fails with EPIPE for 6 formats x 4 result paths; real 4 KiB pipes are closed after k bytes. Rows outside the fault, diagnostics, status and the error counter (hook) are judged.",
         note="Trusted: strace 6.1 fault injection semantics; setpriv for the unprivileged child; rows inside a failing directory may be any subset.",
         ref="DESIGN.md section 3 / C17"),
+    "C18": dict(
+        level="exploration",
+        technique="runtime monitoring: identity-based exactly-once oracle over realpath reachability, termination by CPU limit, dir hook events keyed by canonical path",
+        text="Trees decorated with links of every kind (relative/absolute, inside/outside/above the root, ancestors, root, '.', chains, mutual, self, to files, dangling) are searched with and without `symlinks` from four root spellings and cwds; rows are mapped to (real directory, name) identities that must be listed exactly once and cover everything reachable; each real directory may be entered once (hook).",
+        note="Trusted: os.path.realpath/isdir for reachability. With a depth window only the safety clauses are judged.",
+        ref="DESIGN.md section 3 / C18"),
 }
 
 NOT_APPLICABLE = {}
